@@ -32,6 +32,7 @@ type Keys struct {
 	matched   []rune      // Keys that have been successfully matched against a bind.
 	macroKeys []rune      // Keys that have been fed by a macro.
 	mustWait  bool        // Keys are in the stack, but we must still read stdin.
+	partial   []byte      // First bytes of a character cut by the end of a read (convert-meta).
 	fromMacro bool        // Keys fed by a macro have been used since we last read stdin.
 	nested    int         // Number of times keys have been fed since then.
 	waiting   bool        // Currently waiting for keys on stdin.
@@ -89,6 +90,9 @@ func WaitAvailableKeys(keys *Keys, cfg *inputrc.Config) {
 		// When convert-meta is on, any meta-prefixed bind should
 		// be stripped and replaced with an escape meta instead.
 		keyBuf = keys.convertMeta(keyBuf)
+		if len(keyBuf) == 0 {
+			continue
+		}
 
 		switch {
 		case keys.reading:
@@ -107,11 +111,39 @@ func WaitAvailableKeys(keys *Keys, cfg *inputrc.Config) {
 
 // convertMeta applies the convert-meta setting to keys just read from the terminal.
 func (k *Keys) convertMeta(keyBuf []byte) []byte {
-	if k.cfg != nil && k.cfg.GetBool("convert-meta") {
-		return []byte(strutil.ConvertMeta([]rune(string(keyBuf))))
+	if k.cfg == nil || !k.cfg.GetBool("convert-meta") {
+		return keyBuf
 	}
 
-	return keyBuf
+	// A character cut by the end of a read is converted with the rest of it.
+	keyBuf = append(k.partial, keyBuf...)
+	k.partial = nil
+
+	if cut := incompleteTail(keyBuf); cut > 0 {
+		k.partial = append(k.partial, keyBuf[len(keyBuf)-cut:]...)
+		keyBuf = keyBuf[:len(keyBuf)-cut]
+	}
+
+	return []byte(strutil.ConvertMeta([]rune(string(keyBuf))))
+}
+
+// incompleteTail returns the number of bytes, at the end of a read, that
+// begin a multibyte character of which the following bytes are still to come.
+func incompleteTail(keys []byte) int {
+	for n := 1; n < utf8.UTFMax && n <= len(keys); n++ {
+		char := keys[len(keys)-n]
+		if !utf8.RuneStart(char) {
+			continue
+		}
+
+		if char >= utf8.RuneSelf && !utf8.FullRune(keys[len(keys)-n:]) {
+			return n
+		}
+
+		return 0
+	}
+
+	return 0
 }
 
 // InputClosed returns the error (io.EOF or a read error) that ended the
@@ -263,15 +295,19 @@ func (k *Keys) ReadKey() (key rune, isAbort bool) {
 		key = char
 		k.buf = append(k.buf, buf[size:]...)
 	default:
-		buf, err := k.readInputFiltered()
-		if err != nil || len(buf) == 0 {
-			// No key will come: behave as if the command had been aborted.
-			k.closed = err
-			return inputrc.Esc, true
-		}
+		var buf []byte
 
-		// The same keys as if they had been read before the command was called.
-		buf = k.convertMeta(buf)
+		for len(buf) == 0 {
+			read, err := k.readInputFiltered()
+			if err != nil || len(read) == 0 {
+				// No key will come: behave as if the command had been aborted.
+				k.closed = err
+				return inputrc.Esc, true
+			}
+
+			// The same keys as if they had been read before the command was called.
+			buf = k.convertMeta(read)
+		}
 
 		char, size := utf8.DecodeRune(buf)
 		key = char
